@@ -278,8 +278,6 @@ Fixpoint seval (e : expr) (cst : bool) : SM (pyval * list top) :=
   | EBin op l r =>
       '(a, t1) <~ seval l cst;;
       '(b, t2) <~ seval r cst;;
-      (if (String.eqb op "&&" || String.eqb op "||") && negb (match a, b with VBool _, VBool _ => true | _, _ => false end)
-       then known "logical operator on non-bool operands" (sret tt) else sret tt);;~
       v <~ slift (spec_binop op a b);;
       sret (v, t1 ++ t2)
   | ECall f args => call_rec f args
